@@ -9,11 +9,17 @@ def raw_graph(net):
     return net._graph
 
 
+def declared_ramp_only(M, o):
+    """A kind that IS a ramp for `isinstance` (ABC.register) without inheriting anything from the ramp classes."""
+    return isinstance(o, M.MeteredOnRamp) and M.MeteredOnRamp not in type(o).__mro__
+
+
 def _kind_of_origin(M, o):
     # most-derived first
-    if isinstance(o, M.SimplifiedMeteredOnRamp):
+    virtual = declared_ramp_only(M, o)
+    if isinstance(o, M.SimplifiedMeteredOnRamp) and not virtual:
         return "simple"
-    if isinstance(o, M.MeteredOnRamp):
+    if isinstance(o, M.MeteredOnRamp) and not virtual:
         return "ramp"
     if isinstance(o, M.MainstreamOrigin):
         return "main"
@@ -62,6 +68,7 @@ def extract(M, net, num=float):
                     "a": num(l.a),
                     "beta": num(l.turnrate),
                     "vsl": (list(vsl) if vsl is not None else None),
+                    "vsl_live_order": True,  # read off the live object: the order it holds is the order it uses
                     "alpha": (num(l.alpha) if vsl is not None else None),
                 }
             )
@@ -94,6 +101,8 @@ def extract(M, net, num=float):
                 desc["origins"][-1]["user"] = True
                 desc["origins"][-1]["user_q"] = (num(o.flow) if o.flow is not None else None)
                 desc["origins"][-1]["user_v"] = (num(o.speed) if o.speed is not None else None)
+            if declared_ramp_only(M, o):  # asked now, with the library's own test: what a kind is can change (late registration)
+                desc["origins"][-1]["declared_ramp"] = True
             objmap[oid] = o
             rev[id(o)] = oid
     k = 0
